@@ -1062,8 +1062,9 @@ def _lookup_obligations(ctx, binc, eb, extra):
                             pt = trace(eb, s_["rv"]["ops"][idx], passthrough_extra=extra + ("std::ops::Try::branch",))
                             from_ext = bool(pt.origin and pt.origin[0] == "call" and (fn_of(pt.origin[2]) or {}).get("def") == "std::path::Path::extension")
                             lowered = lowered or any(st[0] == "call" and ("to_ascii_lowercase" in st[1] or "to_lowercase" in st[1]) for st in pt.steps)
-            pred_ok = lowered
-            detail = "row literal compared with Path::extension() ignoring ASCII case" if lowered and from_ext else ("extension compared case-sensitively" if from_ext else "compared text does not derive from Path::extension() (last extension)")
+            uni_ = any(st[0] == "call" and "to_lowercase" in st[1] and "ascii" not in st[1] for st in cap_side[0].steps)
+            pred_ok = lowered and not uni_
+            detail = "the extension is lower-cased with the Unicode `to_lowercase` (U+212A KELVIN SIGN becomes `k`): ASCII lowering is wanted" if uni_ else "row literal compared with Path::extension() ignoring ASCII case" if lowered and from_ext else ("extension compared case-sensitively" if from_ext else "compared text does not derive from Path::extension() (last extension)")
     ctx.ob("lowercased-before-compare:table", pred_ok and from_ext, site(eb, fbb), detail)
     # the answer is the format of the row that was found
     res = trace(eb, {"k": "copy", "p": {"l": 0, "pr": []}}, passthrough_extra=("std::option::Option::<T>::copied", "std::option::Option::<T>::cloned"))
@@ -1134,6 +1135,21 @@ def r14_2(ctx):
                     cb = binc.by_id.get(c)
                     if cb and any((fn_of(tt) or {}).get("name") in ("to_ascii_lowercase", "to_lowercase") for _, tt in cb.calls()):
                         lowered = True
+        # ASCII lowering only: `str::to_lowercase` also folds U+212A KELVIN SIGN to `k` (and U+0130 to `i` + a combining
+        # dot), so an extension that is not in the table (`msgpac` + U+212A) would select a format
+        uni = any(s[0] == "call" and "to_lowercase" in s[1] and "ascii" not in s[1] for s in tr.steps)
+        for step in tr.steps:
+            if step[0] == "call" and (step[1].startswith("std::option::Option::<T>::map") or step[1].startswith("std::option::Option::<T>::and_then")):
+                cf = fn_of(eb.blocks[step[2]]["term"])
+                if any(a.get("k") == "fn" and "to_lowercase" in a.get("def", "") and "ascii" not in a.get("def", "") for a in eb.blocks[step[2]]["term"]["args"]):
+                    uni = True
+                for c in cf.get("closures", []):
+                    cb = binc.by_id.get(c)
+                    if cb and any((fn_of(tt) or {}).get("name") == "to_lowercase" for _, tt in cb.calls()):
+                        uni = True
+        if uni:
+            ctx.ob(f"lowercased-before-compare:{lit}", False, site(eb, bb), "the extension is lower-cased with the Unicode `to_lowercase`, which maps U+212A KELVIN SIGN to ASCII `k`: a file whose extension is not in the table (`msgpac` + U+212A) is forced to a format; the table is ASCII and wants `to_ascii_lowercase` / `eq_ignore_ascii_case`")
+            continue
         ctx.ob(f"lowercased-before-compare:{lit}", lowered and from_ext, site(eb, bb),
                "Path::extension() is lower-cased before comparison" if lowered and from_ext else ("extension compared without lower-casing (case-sensitive match)" if from_ext else "compared text does not derive from Path::extension() (last extension)"))
     # stdin: no extension — the Stdin edge of the switch on `self` returns None without any comparison
